@@ -98,7 +98,7 @@ theorem cross_entropy_grad_is_nll_log_softmax_grad (x y ls : NDArray ℝ) (label
     simp [crossEntropyForward, hne] at h
   have hnll : nllForward ls labels = some y := by
     simpa [crossEntropyForward, hlen, hls] using h
-  obtain ⟨ax, hax, hn⟩ := sm_logSoftmaxForward_some x ls 1 hls
+  obtain ⟨ax, hax, hn⟩ := sm_logSoftmaxForward_some x ls 1 (sm_not_zeroDim_one _) hls
   have hlse : ls = ofFn x.shape (sm_ls x.get (x.shape.getD ax 0) ax) := by
     rw [sm_logSoftmaxForward_eq x 1 ax hax hn] at hls
     exact (Option.some.inj hls).symm
